@@ -115,10 +115,14 @@ fn emission_spec(field_kinds: &[usize], array_kinds: &[usize], webhook_kinds: &[
     })
 }
 
-fn check_emission(rep: &mut Report, case: &str, spec: &serde_json::Value, webhook_adapter: bool) {
+fn check_emission(rep: &mut Report, case: &str, spec: &serde_json::Value, webhook_adapter: bool, prior: Option<&serde_json::Value>) {
     let text = serde_json::to_string(spec).unwrap();
     let parsed = match parse_spec(&text, true) { Ok(s) => s, Err(e) => { rep.oracle_fail("specRejected", vec![], case, &e); return; } };
     let d = fresh_dir("emit");
+    // a share of the crates is generated over the crate of an earlier revision of the document (other adapters needed)
+    if let Some(p) = prior {
+        if let Ok(pp) = parse_spec(&serde_json::to_string(p).unwrap(), true) { let _ = generate(&pp, &Cfg::new("Emit"), &d); rep.bump("emission_over_an_earlier_revision"); }
+    }
     let r = generate(&parsed, &Cfg::new("Emit"), &d);
     let tree = read_tree(&d);
     let _ = std::fs::remove_dir_all(&d);
@@ -264,16 +268,19 @@ pub fn run(tier: &str, seed: u64, out: &str) {
 
     // ---- emission ----
     let mut emission_cases = 0;
+    let mut prev_spec: Option<serde_json::Value> = None;
     let field_sets: Vec<Vec<usize>> = vec![vec![], vec![0], vec![1], vec![2], vec![3], vec![4, 5], vec![0, 1], vec![0, 2], vec![1, 2], vec![0, 1, 2], vec![2, 3], vec![3, 2], vec![6, 2, 3], vec![3, 4, 5, 6]];
     for fs in &field_sets {
         for arr in [vec![], vec![0usize], vec![1, 2]] {
             for wh in [vec![], vec![0usize], vec![2], vec![1, 3]] {
                 if !thorough && emission_cases % 2 == 1 && !wh.is_empty() && !arr.is_empty() { emission_cases += 1; continue; }
                 let spec = emission_spec(fs, &arr, &wh, emission_cases % 2 == 0);
-                let case = format!("(emission (fields {fs:?}) (arrays {arr:?}) (webhooks {wh:?}))");
+                let over_prior = emission_cases % 3 == 1 && prev_spec.is_some();
+                let case = format!("(emission (fields {fs:?}) (arrays {arr:?}) (webhooks {wh:?}){})", if over_prior { " (over the previous case's crate)" } else { "" });
                 // the finding trigger: an adapter-typed primitive component retained by its Webhook name, whose adapter no struct field uses
                 let webhook_adapter = wh.iter().any(|k| *k < 3 && !fs.contains(k));
-                check_emission(&mut rep, &case, &spec, webhook_adapter);
+                check_emission(&mut rep, &case, &spec, webhook_adapter, if over_prior { prev_spec.as_ref() } else { None });
+                prev_spec = Some(spec);
                 emission_cases += 1;
             }
         }
